@@ -3,6 +3,7 @@ import os
 
 ROOT = os.path.dirname(os.path.dirname(os.path.abspath(__file__)))
 TARGET = os.path.join(ROOT, "target")
+HARNESS = os.path.join(ROOT, "harness")
 
 
 def _split(total, n):
@@ -379,3 +380,107 @@ PROPS["C09"]["rule"] += (" A component job (vq-cc --check rtt) drives RttEstimat
 PROPS["C15"]["tiers"]["quick"] += [_cc("keys", 2000), _cc_miri("keys", 30, 2)]
 PROPS["C15"]["tiers"]["thorough"] += [_cc("keys", 80000), _cc_miri("keys", 60, 8)]
 PROPS["C15"]["min_quick"].update({"key_updates_performed": 100_000})
+
+
+# ---------------------------------------------------------------------------------------------
+# C17: vq-sync (engine E3) through its own multi-process runner (one scenario+seed per process)
+
+def _sync(tool, nseeds, scenarios="all", iters=None, extra=(), timeout=None):
+    runner = os.path.join(HARNESS, "vq-sync", "run_sanitized.py")
+
+    def shards(seed, nproc):
+        a = seed * 1000
+        argv = ["python3", runner, "--tool", tool, "--seeds", f"{a}..{a + nseeds}", "--scenarios", scenarios, "--jobs", str(nproc)]
+        if iters:
+            argv += ["--iters", str(iters)]
+        return [argv + list(extra)]
+
+    if tool == "native":
+        build = {"kind": "native", "packages": ["vq-sync"]}
+    else:
+        # the runner builds (once) what it needs; warm it up with a one-process run
+        build = {"kind": "cmd", "cmd": ["python3", runner, "--tool", tool, "--seeds", "0..1", "--scenarios", "spsc_plain", "--jobs", "1"]}
+    job = {"name": f"vq-sync:{tool} {nseeds} seeds x {scenarios}", "engine": "vq-sync", "build": build, "shards": shards}
+    if tool != "native":
+        job["sanitizer"] = tool
+    job["timeout"] = timeout or (2400 if tool == "native" else 5400)
+    return job
+
+
+PROPS["C17"] = {
+    "level": "exploration",
+    "rule": "each evaluation is one execution of one bounded multi-threaded scenario (26 scenarios over spsc capacity 2, worker, cursor and "
+            "atomic_waker: a few batches, close/drop of either side at every point, cloned handles) in its own process, with a history monitor "
+            "(unique heap items, exactly-once/in-order/no-unwritten-slot ledger, a parked task must be woken within a bounded number of steps "
+            "after the condition it waits for holds). Interleavings are sampled, not enumerated: natively with hook H3 failpoints injecting "
+            "yields/spins/sleeps between critical sections; under Miri one -Zmiri-seed = one preemption schedule + one weak-memory outcome "
+            "(data races, stale loads, Stacked Borrows, use-after-free, leaks, deadlock = lost wake-up abort the process and are violations); "
+            "thorough adds ThreadSanitizer and AddressSanitizer builds on real threads. Non-trivial = the execution parked or raced at least "
+            "once; distinct = hash of the monitor's merged event order (distinct interleavings).",
+    "assumptions": ["bounded scenarios (capacity 2, a few batches) as the property itself is stated", "interleavings and weak-memory outcomes are sampled",
+                    "wakeup_queue is not covered (needs the connection container)"],
+    "tiers": {
+        "quick": [_sync("native", 16, iters=200), _sync("miri", 6, extra=["--group"])],
+        "thorough": [_sync("native", 64, iters=2000), _sync("miri", 64, extra=["--group"], timeout=4 * 3600),
+                     _sync("tsan", 16, timeout=4 * 3600), _sync("asan", 8, timeout=4 * 3600)],
+    },
+    "min_quick": {"evaluations": 50_000, "distinct_interleavings": 5_000, "processes.clean": 400},
+    "min_thorough": {"evaluations": 500_000, "distinct_interleavings": 50_000},
+}
+
+
+# ---------------------------------------------------------------------------------------------
+# C18-C20: vq-dc (engine E5)
+
+def _dc(check, iters, shards=16, extra=()):
+    return bin_job("vq-dc", lambda seed, n: [["--check", check, "--seed", seed * 1000 + i, "--iters", iters] + list(extra) for i in range(shards)],
+                   f"vq-dc:{check} {shards}x{iters}", replay=lambda rep, path: ["--check", check, "--replay", path], timeout=3000)
+
+
+PROPS["C18"] = {
+    "level": "exploration",
+    "rule": "each evaluation is one genuine s2n-quic-dc packet (stream, stream-recovery, stream-retransmission, datagram, control, StaleKey, "
+            "ReplayDetected, UnknownPathSecret; grammar-generated fields, payload 0..8.9 KB, both cipher suites, real aws-lc keys) that is "
+            "encoded, decoded and opened (field-for-field round trip), then mutated: every byte position x 4 masks (all positions up to 1200 B, "
+            "else header+tag+sampled payload), every truncation, insert/delete, splices with sibling packets, re-keyed copies, random byte "
+            "strings - a mutant must not open. The path::secret::Map is the victim of forged control packets in five map states through its "
+            "three entry points (events, entries, handshake requests and the next key id must be untouched; the genuine packet is the "
+            "positive control), data packets go through Map::open_once / pair_for_credentials. Non-trivial = packet with optional fields / "
+            "payload; distinct = hash of (kind, suite, field classes).",
+    "assumptions": ["path secrets are inserted through the public handshake API with a harness-chosen exporter secret (no hook)",
+                    "the decoders are driven through the generic packet::Packet entry point"],
+    "tiers": {"quick": [_dc("c18", 80, extra=["--evict-control", "1"])], "thorough": [_dc("c18", 3000, extra=["--evict-control", "1"])]},
+    "min_quick": {"evaluations": 20_000, "b1_mutants": 3_000_000, "b2_deliveries": 1_500_000, "b3_mutants": 1_000_000, "a_round_trips": 10_000},
+    "min_thorough": {"evaluations": 700_000, "b1_mutants": 100_000_000},
+}
+
+PROPS["C19"] = {
+    "level": "exploration",
+    "rule": "each evaluation is one key id (mode a: receiver::State against the model {accepted set, max}: Ok required iff not yet accepted and "
+            "above or within 896 of the max, Ok forbidden iff already accepted; dense permutations, exact window edges 893..898, huge jumps, "
+            "the reserved maximum), one concurrent receiver round (mode b: 2-8 threads, overlapping id lists, each id accepted at most once "
+            "globally and every id inside the window of every linearisation accepted by someone) or one concurrent sealer round (mode c: "
+            "seal_once / seal_once_id / pair on one secret while genuine StaleKey packets arrive: ids pairwise distinct, ids issued after an "
+            "accepted StaleKey(m) returned are >= m). Thorough repeats b and c under ThreadSanitizer. Distinct = hash of (mode, segment class, "
+            "thread count, window-edge classes hit).",
+    "assumptions": ["thread interleavings are sampled on real threads (and under TSan), not enumerated"],
+    "tiers": {"quick": [_dc("c19", 400)], "thorough": [_dc("c19", 12000)]},
+    "min_quick": {"evaluations": 10_000, "a_ids_checked": 2_000_000, "b_ids_contended": 300_000, "c_key_ids_issued": 500_000, "c_stale_key_accepted": 20_000},
+    "min_thorough": {"evaluations": 300_000, "a_ids_checked": 60_000_000},
+}
+
+PROPS["C20"] = {
+    "level": "exploration",
+    "rule": "each evaluation is one scenario of 1-6 dc streams between the crate's testing Client/Server: UDP inside the bach simulator with a "
+            "seeded faulty network (random / burst / k-th packet loss 0.1-30 %, duplication, jitter => reordering, MTU 1250..8940, blackhole, "
+            "mute server, server drop_state), including a fault enumeration (a small flow re-run once per k with exactly its k-th packet "
+            "dropped), and TCP over loopback. Oracle: position-keyed PRF bytes in both directions; every read checked at its absolute position, "
+            "never ahead of what was written; Ok(0) only at the length the writer finished at; with a vanished peer or forgotten secrets the "
+            "operations fail within idle timeout (+5 s); nothing may still be pending at the virtual deadline. A stream that reports an "
+            "error although its peer is alive is counted (c20.observed.*), not flagged: C20 promises exactness or a prompt error, not delivery. "
+            "Non-trivial = faults were actually injected or sizes above one packet; distinct = hash of the scenario's feature vector.",
+    "assumptions": ["TCP faults are application-side only (early drop, tiny reads, half-close)", "MTU above 8950 is clamped by the crate"],
+    "tiers": {"quick": [_dc("c20", 40)], "thorough": [_dc("c20", 1200)]},
+    "min_quick": {"evaluations": 600},
+    "min_thorough": {"evaluations": 15_000},
+}
